@@ -143,10 +143,12 @@ def build(case):
         m.__dict__['calls'] = ProxyLog(log, i)
         subs[i] = m
     cls = linker_class(len(case['lvals']), case['lcheck'])
+    # the linker's own dtype (it governs the linker's own variables only; the submodels keep theirs)
+    lkw = {'dtype': {'int': int, 'float32': np.float32}[case['ldtype']]} if case.get('ldtype') else {}
     if subs:
-        L = cls(subs)
+        L = cls(subs, **lkw)
     else:
-        L = cls({}, span=list(range(n)))
+        L = cls({}, span=list(range(n)), **lkw)
     for i, row in enumerate(case['lvals']):
         L.__dict__[f'_L{i}'][:] = [unbits(b) for b in row]
     L.status[:] = list(case['status'])
@@ -281,6 +283,7 @@ def gen_case(rng):
             'status': ''.join(rng.choice('-.FES') for _ in range(n)) if rng.random() < 0.4 else '-' * n,
             'iters': [rng.choice([-1, 0, 4, 9]) for _ in range(n)] if rng.random() < 0.4 else [-1] * n,
             'opts': o, 't': t, 'sel': sel, 'sel_none': sel_none,
+            'ldtype': rng.choice([None, 'int', 'float32']) if nL == 0 else None,
             'argform': rng.choice(['plain', 'plain', 'numpy']), 'selform': rng.choice(['list', 'list', 'tuple', 'keys', 'nparray'])}
 
 
